@@ -369,7 +369,7 @@ func tvBlockWorlds(seed int64) (map[string]string, []*tvResult) {
 			w.order = append(w.order, name)
 			labels[fmt.Sprintf("%d/%d", w.ID, w.lid(d.Link()))] = bs.name + ":" + v.label
 		}
-		results = append(results, tokenViewRecord(w, true))
+		results = append(results, tvFinish(tvSnapshot(w, true)))
 	}
 	return labels, results
 }
